@@ -153,9 +153,8 @@ def record_and_validate(rep, pid, mode, sessions, elems=30, name=None, damage=8)
     trace = os.path.join(c.OUT, "traces", "%s-schema.ndjson" % pid)
     rtrace = os.path.join(c.OUT, "traces", "%s-schema-render.ndjson" % pid)
     extra = ["--render-trace", rtrace] if mode in ("C01", "C03", "C09") else []
-    if mode != "C08":
-        extra += ["--cfgs", 1]
-    t = c.harness(["schema-record", "--seed", c.seed(), "--n", sessions, "--elems", elems, "--damage", damage, "--out", trace] + extra)
+    cfgs = ["--cfgs", 1] if mode != "C08" else []
+    t = c.harness(["schema-record", "--seed", c.seed(), "--n", sessions, "--elems", elems, "--damage", damage, "--out", trace] + extra + cfgs)
     if extra:
         from . import render_common as rc
         n, infos, st = c.judge_trace("RenderTrace", rtrace, "%s-schema-render" % pid)
